@@ -453,3 +453,45 @@ pub fn canon_log() -> Vec<String> {
         .map(|l| l.splitn(2, ' ').nth(1).unwrap_or("").to_string())
         .collect()
 }
+
+macro_rules! each_socket {
+    ($self:expr, $s:ident => $body:expr) => {
+        match $self {
+            AnySocket::Pub($s) => $body,
+            AnySocket::Sub($s) => $body,
+            AnySocket::Req($s) => $body,
+            AnySocket::Rep($s) => $body,
+            AnySocket::Dealer($s) => $body,
+            AnySocket::Router($s) => $body,
+            AnySocket::Pull($s) => $body,
+            AnySocket::Push($s) => $body,
+            AnySocket::XPub($s) => $body,
+        }
+    };
+}
+
+impl AnySocket {
+    pub async fn bind(&mut self, ep: &str) -> ZmqResult<zeromq::Endpoint> {
+        each_socket!(self, s => s.bind(ep).await)
+    }
+    pub async fn connect(&mut self, ep: &str) -> ZmqResult<()> {
+        each_socket!(self, s => s.connect(ep).await)
+    }
+    pub async fn unbind(&mut self, ep: zeromq::Endpoint) -> ZmqResult<()> {
+        each_socket!(self, s => s.unbind(ep).await)
+    }
+    pub async fn close(self) -> Vec<ZmqError> {
+        each_socket!(self, s => s.close().await)
+    }
+    pub fn bound(&mut self) -> Vec<zeromq::Endpoint> {
+        each_socket!(self, s => s.binds().keys().cloned().collect())
+    }
+    pub fn monitor(&mut self) -> futures::channel::mpsc::Receiver<zeromq::SocketEvent> {
+        each_socket!(self, s => s.monitor())
+    }
+    pub async fn subscribe_all(&mut self) {
+        if let AnySocket::Sub(s) = self {
+            let _ = s.subscribe("").await;
+        }
+    }
+}
